@@ -199,7 +199,7 @@ def check(desc, col):
             key=f"{kind}:optimum-worse")
 
 
-N = {"quick": 45, "thorough": 450}
+N = {"quick": 36, "thorough": 450}
 
 
 def shards(tier, seed):
